@@ -200,6 +200,14 @@ def build_harness(sets):
             if rc == 0:
                 shutil.copy(os.path.join(tdir, "debug", "harness-collect"), bp)
                 out[name] = (True, bp, log[-2000:])
+                # keep the target dir small: the binary has been copied out
+                deps = os.path.join(tdir, "debug", "deps")
+                for f in os.listdir(deps):
+                    if f.startswith("harness_collect-") and not f.endswith(".d"):
+                        try:
+                            os.remove(os.path.join(deps, f))
+                        except OSError:
+                            pass
             else:
                 out[name] = (False, bp, log[-6000:])
         return out
@@ -208,7 +216,7 @@ def build_harness(sets):
         futs = [ex.submit(work, k, items) for k, items in enumerate(slots)]
         for f in futs:
             res.update(f.result())
-    prune_bins(os.path.join(base, "bin"), 4)
+    prune_bins(os.path.join(base, "bin"), 2)
     return res
 
 
@@ -332,7 +340,7 @@ def coq_ptrs(ps):
     return "[" + "; ".join("(%d, %s)" % (i, "Strong" if s == "S" else "Weak") for (i, s) in ps) + "]"
 
 
-def gen_cases_v(cases, meta_by_id):
+def gen_cases_v(cases, meta_by_id, offset=0):
     L = ["(* GENERATED by scripts/props/c16.py from the harness output. *)",
          "From Coq Require Import List String Bool Arith.",
          "From GACollect Require Import ModelDSL ModelTables.",
@@ -359,7 +367,7 @@ def gen_cases_v(cases, meta_by_id):
          "  end.", "",
          "Definition results : list (nat * string) :=", "  List.concat ["]
     rows = []
-    for k, (case, _sets) in enumerate(cases):
+    for k, (case, _sets) in enumerate(cases, offset):
         im = meta_by_id.get(case["impl"])
         c = renumber(case)
         pos = "[" + "; ".join("(%s, (%s, [%s]))" % (
@@ -431,7 +439,7 @@ def diagnose():
     blocks = [re.split(r"(?m)^\s*:\s", b)[0] for b in blocks]
     failing = {}
     if len(blocks) >= 1:
-        for m in re.finditer(r'\("((?:[^"]|"")*)",\s*\[([^\]]*)\]\)', blocks[0]):
+        for m in re.finditer(r'\(\s*"((?:[^"]|"")*)",\s*\[([^\]]*)\]\s*\)', blocks[0]):
             failing[m.group(1).replace('""', '"')] = re.findall(r'"([^"]*)"', m.group(2))
     miss = re.findall(r'"((?:[^"]|"")*)"', blocks[1]) if len(blocks) >= 2 else []
     badnt = re.findall(r'"((?:[^"]|"")*)"', blocks[2]) if len(blocks) >= 3 else []
@@ -605,11 +613,16 @@ def run(chk, tier, seed):
 
     # report concrete violations (one per impl x description class)
     seen = set()
+    # most informative first: a missed pointer in a recorded trace, then survival, then constants only
+    violations.sort(key=lambda v: (0 if v[3] else (1 if "survive" in v[0] else 2)))
     for (c, setname, desc, ptrs) in violations:
-        k = (c["impl"], desc.split(" #")[0][:60])
+        k = (c["impl"], "survive" if "survive" in c else desc.split(" ")[0])
         if k in seen:
             continue
         seen.add(k)
+        if len(seen) > 6:
+            chk.notes.append("further violating impl (not written as a separate replay): %s: %s" % (c["impl"], desc[:200]))
+            continue
         wf = failing.get(c["impl"])
         text = ("property C16 violated by the implementation on a concrete container value\n"
                 "%s\n\nVIOLATION: %s\n%s\nreplay: impl=%s features=%s seed=%d\n" % (
@@ -623,12 +636,19 @@ def run(chk, tier, seed):
 
     # model vs implementation on the same contents
     case_list = list(all_cases.values())
-    rc, cout = coqc_gen("GenCases.v", gen_cases_v(case_list, meta_by_id), timeout=900)
+    nchunk = max(1, min(6, (len(case_list) + 119) // 120))
+    per = (len(case_list) + nchunk - 1) // nchunk if case_list else 1
+    chunks = [(k, case_list[k:k + per]) for k in range(0, max(len(case_list), 1), per)]
+    with concurrent.futures.ThreadPoolExecutor(max_workers=len(chunks)) as ex:
+        outs = list(ex.map(lambda kc: coqc_gen("GenCases%d.v" % (kc[0] // per),
+                                                gen_cases_v(kc[1], meta_by_id, kc[0]), timeout=900), chunks))
+    rc = max(o[0] for o in outs)
+    cout = "\n".join(o[1].split("=", 1)[1] if (o[0] == 0 and "=" in o[1]) else o[1] for o in outs)
     t6 = time.time()
     if rc != 0:
         chk.correspondence("model evaluation of the twin cases (coqc Gen/GenCases.v)", False, cout[-3000:])
     else:
-        body = cout.split("=", 1)[1] if "=" in cout else cout
+        body = cout
         mism = re.findall(r'\((\d+),\s*"([^"]*)"\)', body)
         by_kind = {}
         for (k, what) in mism:
